@@ -449,6 +449,17 @@ func isBasicNumberKind(kind reflect.Kind) bool {
 
 func convToBasicNumber(source interface{}, target reflect.Type) (interface{}, error) {
 	if v, ok := source.(*decimal.Big); ok {
+		if k := target.Kind(); k != reflect.Float32 && k != reflect.Float64 {
+			// an integer parameter takes the truncated value or nothing: 300 reached an int8 as 44,
+			// and 1e30, infinity and NaN reached an int64 as -9223372036854775808
+			iv, fits := int64(0), false
+			if v.IsFinite() {
+				iv, fits = int64Of(toIntegral(v, decimal.ToZero))
+			}
+			if !fits || reflect.Zero(target).OverflowInt(iv) {
+				return nil, fmt.Errorf("convToBasicNumber %v does not fit %v", v, target)
+			}
+		}
 		f, _ := v.Float64()
 		// float64 cannot hold every integer (9007199254740993 came through as ...992) and
 		// decimal's own Float64 is not correctly rounded: truncate in decimal for integer
